@@ -186,6 +186,13 @@ func (c *Collection) CreateColumn(columnName string, column Column) error {
 		capacity = uint32(c.opts.Capacity)
 	}
 
+	// The column must cover every chunk which exists already, even if sparsely populated
+	c.lock.RLock()
+	if size := uint32(len(c.fill)) << 6; size > capacity+1 {
+		capacity = size - 1
+	}
+	c.lock.RUnlock()
+
 	column.Grow(capacity)
 	c.cols.Store(columnName, columnFor(columnName, column))
 
